@@ -310,8 +310,13 @@ class Run:
                 out = "harness timeout"
             if p.returncode != 0:
                 last = tail_line(os.path.join(d, "cases.txt"))
-                self.add_violation("harness for area %s exited with %s (%s): %s" % (name, p.returncode, label, out[-300:]),
-                                   {"correspondence": name, "last_case": last, "harness_output": out[-2000:]}, concrete=bool(last))
+                cur = tail_line(os.path.join(d, "current.txt"))   # the case that was running when the process died
+                payload = {"correspondence": name, "last_case": last, "harness_output": out[-2000:]}
+                if cur:
+                    payload["case"] = cur
+                self.add_violation("harness for area %s exited with %s (%s)%s: %s" % (
+                    name, p.returncode, label, " while running the case of the replay (the daemon code killed the process)" if cur else "",
+                    out[-300:]), payload, concrete=bool(cur or last))
                 continue
             self.compare(area, label, d, acov, seen)
         self.cov["areas"][name] = acov
